@@ -87,6 +87,39 @@ def _under_no_grad(mod, node) -> bool:
     return False
 
 
+def _tuple_elements(e):
+    """element texts of a tuple-valued expression: literals, tuple(<comprehension over range(a, b)>), concatenation `+`, repetition `(x,) * k`; None if not enumerable"""
+    if isinstance(e, (ast.Tuple, ast.List)):
+        return [norm(x) for x in e.elts]
+    if isinstance(e, ast.BinOp) and isinstance(e.op, ast.Add):
+        a, b = _tuple_elements(e.left), _tuple_elements(e.right)
+        return None if a is None or b is None else a + b
+    if isinstance(e, ast.BinOp) and isinstance(e.op, ast.Mult):
+        for seq, k in ((e.left, e.right), (e.right, e.left)):
+            if isinstance(k, ast.Constant) and isinstance(k.value, int):
+                a = _tuple_elements(seq)
+                return None if a is None else a * k.value
+    if isinstance(e, ast.Call) and isinstance(e.func, ast.Name) and e.func.id in ("tuple", "list") and len(e.args) == 1:
+        a = e.args[0]
+        if isinstance(a, (ast.GeneratorExp, ast.ListComp)) and len(a.generators) == 1 and not a.generators[0].ifs and isinstance(a.generators[0].target, ast.Name) \
+                and isinstance(a.generators[0].iter, ast.Call) and norm(a.generators[0].iter.func) == "range":
+            try:
+                rng = range(*[ast.literal_eval(x) for x in a.generators[0].iter.args])
+            except Exception:
+                return None
+            var = a.generators[0].target.id
+            out = []
+            for v in rng:
+                class S(ast.NodeTransformer):
+                    def visit_Name(s_, n):
+                        return ast.copy_location(ast.Constant(value=v), n) if n.id == var else n
+                import copy
+                out.append(norm(S().visit(copy.deepcopy(a.elt))))
+            return out
+        return _tuple_elements(a)
+    return None
+
+
 def run(ctx):
     import sympy as sp
     repo = ctx.repo
@@ -125,15 +158,9 @@ def run(ctx):
     if n_store < 8:
         raise AnalysisError(f"only {n_store} parameter-dictionary stores found")
     pf = repo.mod(BASICS).func("Pack_Parameters.forward")
-    loops = [l for l in ast.walk(pf) if isinstance(l, ast.For)]
-    ok = len(loops) == 1 and "self.nrp" in norm(loops[0].iter) and any(isinstance(s, ast.Assign) and "self.required_list[i]" in norm(s.targets[0]) for s in loops[0].body)
-    ctx.check(ok, "R1", repo.mod(BASICS), pf, "Pack_Parameters.forward", loops[0] if loops else pf.name,
-              "packing overwrites only the required (non-learned) keys: caller-supplied tensors are passed through untouched",
-              "Pack_Parameters.forward no longer restricts its writes to the non-learned keys")
-    init = repo.mod(BASICS).func("Pack_Parameters.__init__")
-    req = [st for st in ast.walk(init) if isinstance(st, ast.If) and "self.learned_list" in norm(st.test)]
-    ctx.check(bool(req) and norm(req[0].test).replace(" ", "") == "inotinself.learned_list", "R1", repo.mod(BASICS), init, "Pack_Parameters.__init__", "required_list",
-              "required_list = method parameters not in the learned list", "required_list construction changed")
+    from ..assembly import interpreted_parameter_packing
+    okp, msgp = interpreted_parameter_packing(repo)
+    ctx.check(okp, "R1", repo.mod(BASICS), pf, "Pack_Parameters.forward", "packing (interpreted)", msgp, "Pack_Parameters: " + msgp)
 
     # ------------------------------------------------------------------ R1 (b,c) inventory of graph cuts on the energy path
     n_cut = 0
@@ -202,7 +229,8 @@ def run(ctx):
         n_in = len(fw[2].args.args) - 1
         rets = [r for r in ast.walk(bw[2]) if isinstance(r, ast.Return) and m.enclosing_function(r) is bw[2]]
         for r in rets:
-            n_out = len(r.value.elts) if isinstance(r.value, ast.Tuple) else 1
+            te_ = _tuple_elements(r.value)
+            n_out = len(te_) if te_ is not None else 1
             ctx.check(n_out == n_in, "R2", bw[0], r, f"{cname}.backward", f"{cname}.backward return arity",
                       f"{cname}: backward returns {n_out} cotangents for {n_in} forward inputs",
                       f"{cname}.backward returns {n_out} values but forward takes {n_in} inputs: cotangents are misaligned with inputs")
@@ -228,11 +256,23 @@ def run(ctx):
               f"SCF.backward differentiates {[norm(e) for e in lists[0].iter.args[0].elts] if lists else None}, forward takes {first8}")
     if lists:
         body_txt = norm(lists[0])
-        ctx.check("gvind.append(i + 1)" in body_txt and "grads[i + 1] = None" in body_txt, "R2", scf, lists[0], "SCF.backward", "grads index",
+        # the slot of the k-th input (k = 0..7) is k + 1: `i + 1` with enumerate(seq), or the loop index itself with enumerate(seq, start=1)
+        it = lists[0].iter
+        start = 0
+        for kw in it.keywords:
+            if kw.arg == "start":
+                start = ast.literal_eval(kw.value)
+        if len(it.args) > 1:
+            start = ast.literal_eval(it.args[1])
+        iv_ = lists[0].target.elts[0].id if isinstance(lists[0].target, ast.Tuple) and isinstance(lists[0].target.elts[0], ast.Name) else "i"
+        slot = iv_ if start == 1 else f"{iv_} + 1" if start == 0 else None
+        ctx.check(slot is not None and f"gvind.append({slot})" in body_txt and f"grads[{slot}] = None" in body_txt, "R2", scf, lists[0], "SCF.backward", "grads index",
                   "cotangent slot of the k-th input is grads[k] (1-based)", "index bookkeeping of the cotangent slots changed")
     rets = [r for r in ast.walk(bw) if isinstance(r, ast.Return) and scf.enclosing_function(r) is bw]
     for r in rets:
-        e = [norm(x) for x in r.value.elts]
+        e = _tuple_elements(r.value)
+        if e is None:
+            raise AnalysisError(f"SCF.backward: return expression `{short(r.value, 60)}` is not a tuple this analysis can enumerate")
         ok = e[:8] == [f"grads[{i}]" for i in range(1, 9)] and all(x == "None" for x in e[8:])
         ctx.check(ok, "R2", scf, r, "SCF.backward", "return order", "SCF.backward returns grads[1..8] followed by None for the non-differentiable inputs",
                   f"SCF.backward returns {e[:10]}...: cotangents do not line up with (M, w, W, gss, gpp, gsp, gp2, hsp)")
